@@ -124,14 +124,17 @@ def ref_levels(loc, max_coll=None):
 
 
 def ref_text(v):
-    """Expected rendering: ('count', n) for containers, ('str', text) for scalars/objects, None = don't-care."""
+    """Expected rendering: ('count', n) for containers, ('str', text) for scalars and plain user objects,
+    None = don't-care (iterators, generators, functions, builtins: the statement does not fix their text)."""
     t = type(v)
     if t in (dict, list, tuple, set, frozenset):
         return ('count', len(v))
-    try:
-        return ('str', str(v))
-    except Exception:
-        return None
+    if is_scalar(v) or (t.__module__ != 'builtins' and hasattr(v, '__dict__') and not callable(v) and not hasattr(v, '__next__')):
+        try:
+            return ('str', str(v))
+        except Exception:
+            return None
+    return None
 
 
 def closure_problems(snapshot):
